@@ -109,8 +109,8 @@ fn s_printed(t: &mut Tape, ctx: &mut Ctx) -> Result<(), Failure> {
 
 pub fn streams() -> Vec<Stream> {
     let mut v = vec![
-        Stream { name: "mutants", kind: Kind::Tape { cases: |t: Tier| t.pick(30_000, 1_000_000), max_len: 120, f: s_mutants }, isolate: false },
-        Stream { name: "printed", kind: Kind::Tape { cases: |t: Tier| t.pick(6_000, 200_000), max_len: 120, f: s_printed }, isolate: false },
+        Stream { name: "mutants", kind: Kind::Tape { cases: |t: Tier| t.pick(150_000, 3_000_000), max_len: 120, f: s_mutants }, isolate: false },
+        Stream { name: "printed", kind: Kind::Tape { cases: |t: Tier| t.pick(30_000, 600_000), max_len: 120, f: s_printed }, isolate: false },
     ];
     v.extend(crate::checks::nearmiss_streams::c03());
     v
